@@ -206,6 +206,11 @@ def run_plan(pid, tier, plan, prefixes, need_witnesses=(), crash_is_violation=Fa
         nmerge = 0
         if spec.get('merge_check', True) and len(s.ids) == 1 and not run.out_of_time(60):
             nmerge, _diff = s.merge_check(limit=150 if tier == 'quick' else 1500)
+            if any('C04.'.startswith(p) for p in prefixes):
+                # a reply that changed nothing visible (the state after it is the state before it) must not change anything later either (C04, second half)
+                for text, rep in _diff:
+                    if rep.get('self_loop') and rep.get('last_event', [''])[0] == 'X':
+                        run.violation('C04.stray-later-behaviour', '[%s] the reply %s left the visible state as it was, but: %s' % (label, proto.ev_str(tuple(rep['last_event'])), text), rep, dedup=label + '|later|' + str(rep['last_event'][3:]))
             for tag, text, rep in s.merge_observed:
                 if any(tag.startswith(p) for p in prefixes):
                     run.violation(tag, '[%s] %s' % (label, text), rep, dedup=label + '|merge|' + tag)
